@@ -43,6 +43,8 @@ def gen_scenarios(seed, tier):
             yield gen_blocking(rng, i)
         elif i % 12 == 7:
             yield gen_blocking_nested(rng, i)
+        elif i % 12 == 4:
+            yield gen_comb_callback(rng, i)
         else:
             d = sc.gen_stack(rng, i, ops=("submit", "cancel", "addcb", "result", "shutdown", "sleep"), tail=(20.0,), shutdown_p=0.12)
             for lay in d["layers"]:
@@ -125,7 +127,87 @@ def gen_nested(rng, i):
     return d
 
 
+def gen_comb_callback(rng, i):
+    """a done-callback on the output of a combinator (f_zip, f_sequence, f_or, f_and) that calls back into the combinator's inputs -
+    cancels or completes another input - when the output is decided: the combinators run user callbacks outside their own lock, so
+    the nested `handle_done` this triggers on the same thread must get in"""
+    from props.common import schedule_modes
+    d = dict(kind="comb-callback", idx=i, comb=rng.choice(["zip", "zip", "sequence", "or", "and"]), n=rng.choice([2, 3, 4]),
+             first=rng.choice(["err", "err", "cancel", "ok"]), action=rng.choice(["cancel", "cancel", "set_result", "set_exception"]),
+             threads=rng.choice([1, 2]), seed=rng.randrange(1 << 30))
+    d.update(schedule_modes(rng))
+    return d
+
+
+def run_comb_callback(desc):
+    from concurrent.futures import Future
+    from props.common import run, sched_kwargs, wrapfut
+    from world.sim import SimFuture, EXC
+    wrapfut.install()
+    st = {}
+
+    def body(s, w):
+        from more_executors.futures import f_zip, f_sequence, f_or, f_and
+        ins = [SimFuture() for _ in range(desc["n"])]
+        comb = desc["comb"]
+        out = {"zip": lambda: f_zip(*ins), "sequence": lambda: f_sequence(ins), "or": lambda: f_or(*ins), "and": lambda: f_and(*ins)}[comb]()
+
+        def react(f):
+            # the usual reaction to "the combined future is decided": deal with the inputs that are still pending
+            for g in ins[1:]:
+                if g.done():
+                    continue
+                if desc["action"] == "cancel":
+                    g.cancel()
+                elif g.set_running_or_notify_cancel():
+                    if desc["action"] == "set_result":
+                        g.set_result(0)
+                    else:
+                        g.set_exception(EXC["E1"]("late"))
+        out.add_done_callback(react)
+
+        def first():
+            s.yield_point("complete")
+            f = ins[0]
+            if desc["first"] == "cancel":
+                if Future.cancel(f):
+                    f.set_running_or_notify_cancel()
+            elif f.set_running_or_notify_cancel():
+                if desc["first"] == "err":
+                    f.set_exception(EXC["E0"]("first"))
+                else:
+                    # a value that decides f_or (truthy) / f_and (falsy) at once; for zip/sequence nothing is decided yet
+                    f.set_result(1 if comb != "and" else 0)
+
+        def rest():
+            for g in ins[1:]:
+                s.yield_point("complete")
+                if not g.done() and g.set_running_or_notify_cancel():
+                    try:
+                        g.set_result(2)
+                    except Exception:
+                        pass
+        ts = [s.spawn(first, name="first")]
+        if desc["threads"] == 2:
+            ts.append(s.spawn(rest, name="rest"))
+        s.block(lambda: all(t.state == "done" for t in ts), None, ("cjoin", ts[0].tid))
+        if desc["threads"] == 1:
+            rest()
+        st["completed"] = True
+        st["out_done"] = out.done()
+    s, w = run(body, **sched_kwargs(desc))
+    hits = []
+    if not st.get("completed") and s.end_reason == "idle":
+        locks = [(tid, park, role, name) for (tid, park, role, name) in s.parked() if park and park[0] == "lock"]
+        hits.append(hit("C04/deadlock:combinator-callback", "a done-callback on the output of f_%s that %ss the other inputs never returns: "
+                        "threads blocked for ever %r" % (desc["comb"], desc["action"], locks or s.parked())))
+    return {"hits": hits, "blocks": [], "verdicts": ["OK 1 1"] if st.get("completed") else [], "schedule": list(s.chooser.record),
+            "fingerprint": fingerprint(desc, s), "stats": {"family_comb_callback": 1}, "sample": None}
+
+
 def run_one(desc):
+    if desc.get("kind") == "comb-callback":
+        return run_comb_callback(desc)
     s, ctx, out = sc.run_stack(desc, props=("C04", "C11"))
     hits = list(out.get("C04", []))
     hits += [h for h in out.get("C11", []) if h["sig"].startswith("C11/shutdown-never-returns:lock")]
